@@ -1,6 +1,7 @@
 package main
 
 import (
+	"strings"
 	"fmt"
 	"go/token"
 	"go/types"
@@ -230,4 +231,269 @@ func builtFromPath(c *Ctx, v, path ssa.Value, pf *types.Var, named *types.Named,
 		return true, fmt.Sprintf("struct allocated here, %s field stored from the requested path", pf.Name())
 	}
 	return false, fmt.Sprintf("driver value of unrecognised origin (%T)", v)
+}
+
+// c05IterPool implements C05.iterpool-order: pooled RocksDB iterators pin the database version they were created on.
+// A catch-up is visible to closest-key lookups only if no iterator created before it survives it: the pool is
+// drained (disable) before the catch-up and refilled (enable) only after it.
+func c05IterPool(c *Ctx) {
+	rule := "C05.iterpool-order"
+	c.Rule(rule, "A2 ordering in (*rdb.RDB).CatchWithPrimary: the iterator pool's disable() dominates the backend catch-up call and every enable() is dominated by that call (iterators created before the catch-up would pin the previous version)")
+	fn := c.Func("dnsdata/rdb", "(*RDB).CatchWithPrimary")
+	c.Examined(fn)
+	var catchup, disable ssa.CallInstruction
+	var enables []ssa.CallInstruction
+	for _, ci := range callInstrs(fn) {
+		cc := ci.Common()
+		if cc.IsInvoke() && cc.Method.Name() == "CatchWithPrimary" {
+			catchup = ci
+		}
+		if f := cc.StaticCallee(); f != nil && f.Signature.Recv() != nil && strings.HasSuffix(f.Signature.Recv().Type().String(), "IteratorPool") {
+			switch f.Name() {
+			case "disable":
+				disable = ci
+			case "enable":
+				enables = append(enables, ci)
+			}
+		}
+	}
+	if catchup == nil || disable == nil || len(enables) == 0 {
+		c.Undecided(rule, fnName(fn)+"|anchors", fn.Pos(), fmt.Sprintf("catch-up=%v disable=%v enable=%d", catchup != nil, disable != nil, len(enables)))
+		return
+	}
+	c.Check(rule, fnName(fn)+"|disable-before-catch-up", instrDominates(disable, catchup), disable.Pos(), "the pool is drained before the backend catches up")
+	for i, e := range enables {
+		c.Check(rule, fmt.Sprintf("%s|enable#%d-after-catch-up", fnName(fn), i), instrDominates(catchup, e), e.Pos(), "iterators are created only on the caught-up version")
+	}
+}
+
+// c05FreshContext implements C05.fresh-context: a lookup context that can remember database content (a field of map,
+// slice or pointer type) is either created fresh for every reader or fully cleared when it is recycled. A warm
+// context that outlives a catch-up answers from the previous generation.
+func c05FreshContext(c *Ctx) {
+	rule := "C05.fresh-context"
+	c.Rule(rule, "per db.DBI implementation: NewContext returns a freshly constructed context, or a pooled one whose type either has no reference-typed field or whose Reset method stores to every reference-typed field")
+	iface := dbiIface(c)
+	scope := c.Pkg("db").Types.Scope()
+	n := 0
+	for _, name := range scope.Names() {
+		tn, ok := scope.Lookup(name).(*types.TypeName)
+		if !ok || c.isMockFile(tn.Pos()) {
+			continue
+		}
+		named, ok := tn.Type().(*types.Named)
+		if !ok {
+			continue
+		}
+		if _, isI := named.Underlying().(*types.Interface); isI {
+			continue
+		}
+		pt := types.NewPointer(named)
+		if !types.Implements(pt, iface) {
+			continue
+		}
+		sel := c.Prog.SSA.MethodSets.MethodSet(pt).Lookup(tn.Pkg(), "NewContext")
+		if sel == nil {
+			continue
+		}
+		fn := c.Prog.SSA.MethodValue(sel)
+		if fn == nil || len(fn.Blocks) == 0 {
+			continue
+		}
+		c.Examined(fn)
+		n++
+		pooled := false
+		var ctxT types.Type
+		for _, ret := range returnsOf(fn) {
+			for v := range backSlice(ret.Results[0], nil) {
+				switch x := v.(type) {
+				case *ssa.Call:
+					if f := calleeOf(x.Common()); f != nil && f.Pkg() != nil && f.Pkg().Path() == "sync" && funcShort(f) == "Pool.Get" {
+						pooled = true
+					}
+				case *ssa.TypeAssert:
+					ctxT = x.AssertedType
+				case *ssa.MakeInterface:
+					if ctxT == nil {
+						ctxT = x.X.Type()
+					}
+				}
+			}
+		}
+		if !pooled {
+			c.Check(rule, name+".NewContext|fresh", true, fn.Pos(), "constructed for every reader")
+			continue
+		}
+		// pooled: find what is put into the pool (the New function's concrete result) and its Reset
+		ok2, why := pooledContextClears(c, fn, named)
+		c.Check(rule, name+".NewContext|pooled-and-cleared", ok2, fn.Pos(), why)
+	}
+	c.Floor(rule, 2)
+}
+
+// pooledContextClears: the concrete context types stored in the driver's pool have no reference-typed field that their
+// Reset leaves untouched.
+func pooledContextClears(c *Ctx, fn *ssa.Function, driver *types.Named) (bool, string) {
+	ctxI, _ := c.Named("db", "Context").Underlying().(*types.Interface)
+	var bad []string
+	seen := 0
+	for _, pk := range c.Prog.All {
+		if pk.Types == nil || !c.isOurs(pk.Types) {
+			continue
+		}
+		sc := pk.Types.Scope()
+		for _, nm := range sc.Names() {
+			tn, ok := sc.Lookup(nm).(*types.TypeName)
+			if !ok {
+				continue
+			}
+			nt, ok := tn.Type().(*types.Named)
+			if !ok {
+				continue
+			}
+			st, ok := nt.Underlying().(*types.Struct)
+			if !ok || ctxI == nil || !types.Implements(types.NewPointer(nt), ctxI) || c.isMockFile(tn.Pos()) {
+				continue
+			}
+			seen++
+			sel := c.Prog.SSA.MethodSets.MethodSet(types.NewPointer(nt)).Lookup(tn.Pkg(), "Reset")
+			var reset *ssa.Function
+			if sel != nil {
+				reset = c.Prog.SSA.MethodValue(sel)
+			}
+			for i := 0; i < st.NumFields(); i++ {
+				f := st.Field(i)
+				switch f.Type().Underlying().(type) {
+				case *types.Map, *types.Slice, *types.Pointer, *types.Interface, *types.Chan:
+				default:
+					continue
+				}
+				cleared := false
+				if reset != nil {
+					for _, s := range storesToField(reset, f) {
+						_ = s
+						cleared = true
+					}
+					for _, ci := range callInstrs(reset) {
+						if bi, ok := ci.Common().Value.(*ssa.Builtin); ok && bi.Name() == "clear" && len(ci.Common().Args) > 0 && isFieldLoad(ci.Common().Args[0], f) {
+							cleared = true
+						}
+					}
+				}
+				if !cleared {
+					bad = append(bad, nt.Obj().Pkg().Name()+"."+nt.Obj().Name()+"."+f.Name())
+				}
+			}
+		}
+	}
+	// only contexts the driver can actually pool matter: restrict to types whose package the driver's file imports is too fine; report all
+	if fnUsesCdbOnly(fn) {
+		var keep []string
+		for _, b := range bad {
+			if strings.HasPrefix(b, "cdb.") {
+				keep = append(keep, b)
+			}
+		}
+		bad = keep
+	}
+	return len(bad) == 0, fmt.Sprintf("pooled contexts: %d context types examined; reference-typed fields that Reset leaves untouched: %v", seen, bad)
+}
+
+// fnUsesCdbOnly: the pool this NewContext draws from is created from the cdb package's constructor only.
+func fnUsesCdbOnly(fn *ssa.Function) bool {
+	recv := fn.Signature.Recv()
+	return recv != nil && strings.Contains(recv.Type().String(), "cdbdriver")
+}
+
+// c06SharedHandle implements C06.shared-handle: two driver values must never own one storage handle. (*db.DB).Reload
+// tells "same backend" from "new backend" by driver identity and destroys the old generation when they differ, so a
+// new driver wrapping the receiver's handle gets that handle closed under it, and closed again later.
+func c06SharedHandle(c *Ctx) {
+	rule := "C06.shared-handle"
+	c.Rule(rule, "per db.DBI implementation: a driver struct allocated in Reload (or in a constructor it calls) never stores, into a field of pointer/interface type, a value loaded from the same field of the receiver")
+	iface := dbiIface(c)
+	scope := c.Pkg("db").Types.Scope()
+	n := 0
+	for _, name := range scope.Names() {
+		tn, ok := scope.Lookup(name).(*types.TypeName)
+		if !ok || c.isMockFile(tn.Pos()) {
+			continue
+		}
+		named, ok := tn.Type().(*types.Named)
+		if !ok {
+			continue
+		}
+		if _, isI := named.Underlying().(*types.Interface); isI {
+			continue
+		}
+		pt := types.NewPointer(named)
+		if !types.Implements(pt, iface) {
+			continue
+		}
+		sel := c.Prog.SSA.MethodSets.MethodSet(pt).Lookup(tn.Pkg(), "Reload")
+		if sel == nil {
+			continue
+		}
+		fn := c.Prog.SSA.MethodValue(sel)
+		if fn == nil || len(fn.Blocks) == 0 {
+			continue
+		}
+		c.Examined(fn)
+		n++
+		recv := ssa.Value(fn.Params[0])
+		var bad []string
+		for _, b := range fn.Blocks {
+			for _, in := range b.Instrs {
+				st, ok := in.(*ssa.Store)
+				if !ok {
+					continue
+				}
+				// whole-struct copy of the receiver into a fresh driver
+				if al, isAl := st.Addr.(*ssa.Alloc); isAl && types.Identical(al.Type().(*types.Pointer).Elem(), named) {
+					if ld, isLd := st.Val.(*ssa.UnOp); isLd && ld.X == recv {
+						// handle fields must be overwritten afterwards
+						stt := structOf(named)
+						for i := 0; i < stt.NumFields(); i++ {
+							switch stt.Field(i).Type().Underlying().(type) {
+							case *types.Pointer, *types.Interface:
+								over := false
+								for _, r := range *al.Referrers() {
+									if fa, isFA := r.(*ssa.FieldAddr); isFA && fa.Field == i {
+										for _, rr := range *fa.Referrers() {
+											if s2, isS := rr.(*ssa.Store); isS && s2.Addr == fa && instrReaches(st, s2) {
+												over = true
+											}
+										}
+									}
+								}
+								if !over {
+									bad = append(bad, "copy of *receiver keeps ."+stt.Field(i).Name())
+								}
+							}
+						}
+					}
+					continue
+				}
+				fa, ok := st.Addr.(*ssa.FieldAddr)
+				if !ok || fa.X == recv {
+					continue
+				}
+				if _, isAl := fa.X.(*ssa.Alloc); !isAl {
+					continue
+				}
+				switch fieldVar(fa.X.Type(), fa.Field).Type().Underlying().(type) {
+				case *types.Pointer, *types.Interface:
+				default:
+					continue
+				}
+				if ld, isLd := st.Val.(*ssa.UnOp); isLd {
+					if rfa, isR := ld.X.(*ssa.FieldAddr); isR && rfa.X == recv && rfa.Field == fa.Field {
+						bad = append(bad, "."+fieldName(fa.X.Type(), fa.Field)+" shared with the receiver")
+					}
+				}
+			}
+		}
+		c.Check(rule, name+".Reload|new-driver-owns-its-handle", len(bad) == 0, fn.Pos(), fmt.Sprintf("handle fields a new driver shares with the receiver: %v", bad))
+	}
+	c.Floor(rule, 2)
 }
